@@ -3,6 +3,7 @@ package props
 import (
 	"bytes"
 	"fmt"
+	"io"
 	"os"
 	"reflect"
 	"strings"
@@ -40,7 +41,7 @@ func (c11) Runs(tier string) int {
 	if tier == "thorough" {
 		return 40000
 	}
-	return 4000
+	return 3000
 }
 
 func (p c11) Run(runseed uint64, tier string, acc *Acc) []*core.Violation {
@@ -63,8 +64,11 @@ func (p c11) Run(runseed uint64, tier string, acc *Acc) []*core.Violation {
 		// embedded-trailer arm: since the reader checks the trailing magic, the only prefixes that get past
 		// the footer check are those that end in a readable trailer of their own
 		mk := embeddedTrailerFile
-		if r.Chance(1, 3) {
+		switch r.Intn(6) {
+		case 0, 1:
 			mk = embeddedNearMissFile
+		case 2:
+			mk = embeddedForeignFile
 		}
 		if ef := mk(r); ef != nil {
 			f, ok = ef, true
@@ -124,6 +128,7 @@ func (p c11) Run(runseed uint64, tier string, acc *Acc) []*core.Violation {
 	}
 	var riskyCuts []int
 	var riskyKinds []string
+	heldBig := 0
 	wide := f.W.Shape == "wide" // 70 columns: opening a reader costs ~30 us before the first byte is read
 	for cut := 0; cut < L; cut++ {
 		if L > 64<<10 && cut < L-4096 && !boundary[cut] && !r.Chance(1, 16) {
@@ -140,11 +145,33 @@ func (p c11) Run(runseed uint64, tier string, acc *Acc) []*core.Violation {
 			riskyKinds = append(riskyKinds, kind)
 			continue
 		}
+		if (cut+int(runseed>>3))%16 == 0 && !f.W.Giant && !wide {
+			// one cut in sixteen: the program had the same source object open on the complete file.
+			// (The complete file is read once per such cut; for the big classes that costs up to
+			// seconds, so only a dozen cuts inside the trailer get it.)
+			if big := f.W.Large || f.W.Huge || f.W.Many; !big {
+				c.HeldHandle = true
+			} else if cut >= L-400 && heldBig < 12 {
+				c.HeldHandle = true
+				heldBig++
+			}
+		}
+		if (cut+int(runseed>>6))%8 == 0 {
+			// one cut in eight: the source of the truncated file also fragments its reads
+			// (the cut is what the property is about; how the bytes arrive must not matter)
+			c.Frag = &core.Frag{Policy: []string{"random", "small", "fixed"}[cut%3], Arg: 1 + cut%7, Seed: runseed ^ uint64(cut)*0x9e3779b97f4a7c15, EOFWithData: cut%2 == 0}
+		}
 		v, rr, steps := p.check(c, f, limit)
 		acc.Evals++
 		acc.Steps += steps
 		if cut > 4 {
 			nontrivial++
+		}
+		if c.HeldHandle {
+			acc.Inc("source/held-open-across-the-crash")
+		}
+		if c.Frag != nil {
+			acc.Inc("source/fragmenting")
 		}
 		region, clean := f.regionAt(cut)
 		acc.Inc("cut/" + region)
@@ -244,14 +271,32 @@ func (p c11) riskyVerdict(c *core.Case, f *fileWL, r RiskyRes) *core.Violation {
 
 func (p c11) check(c *core.Case, f *fileWL, limit int) (*core.Violation, *core.ReadResult, int) {
 	cut := *c.Cut
-	src := core.NewSource(f.Data[:cut:cut], nil, nil)
-	src.MaxCalls = 400000 + 400*len(f.Data)
-	src.FileName = fmt.Sprintf("sim-%016x.parquet", f.Digest) // the crash leaves a shorter file under the same name
-	rr := core.ExecReader(f.W.ReadShape(), src.AsReadSeeker(kindOr(c.SourceKind)), limit, nil)
+	var src *core.Source
+	var rs io.ReadSeeker
+	if c.HeldHandle {
+		// the same source object served the complete file before the crash
+		src = core.NewSource(f.Data, nil, nil)
+		src.MaxCalls = 400000 + 400*len(f.Data)
+		src.FileName = fmt.Sprintf("sim-%016x.parquet", f.Digest)
+		rs = src.AsReadSeeker(kindOr(c.SourceKind))
+		core.ExecReader(f.W.ReadShape(), rs, limit, nil)
+		src.Reopen(f.Data[:cut:cut])
+		src.SetFrag(c.Frag)
+	} else {
+		src = core.NewSource(f.Data[:cut:cut], c.Frag, nil)
+		src.MaxCalls = 400000 + 400*len(f.Data)
+		src.FileName = fmt.Sprintf("sim-%016x.parquet", f.Digest) // the crash leaves a shorter file under the same name
+		rs = src.AsReadSeeker(kindOr(c.SourceKind))
+	}
+	rr := core.ExecReader(f.W.ReadShape(), rs, limit, nil)
 	region, _ := f.regionAt(cut)
+	held := ""
+	if c.HeldHandle {
+		held = ", the same source object was open on the complete file before the crash"
+	}
 	mk := func(sig, detail string) (*core.Violation, *core.ReadResult, int) {
 		return &core.Violation{Prop: "C11", Sig: "C11/" + sig + "/" + region,
-			Detail: fmt.Sprintf("%s [file %s of %d bytes cut at byte %d (inside %s); source=%s]", detail, f.W.HistoryString(), len(f.Data), cut, region, kindOr(c.SourceKind)), Case: c}, rr, src.Stats.Calls
+			Detail: fmt.Sprintf("%s [file %s of %d bytes cut at byte %d (inside %s); source=%s%s]", detail, f.W.HistoryString(), len(f.Data), cut, region, kindOr(c.SourceKind), held), Case: c}, rr, src.Stats.Calls
 	}
 	switch {
 	case rr.Panic != "":
@@ -295,6 +340,16 @@ func (p c11) Check(c *core.Case) (*core.Violation, error) {
 
 func (p c11) Shrink(c *core.Case) []*core.Case {
 	var out []*core.Case
+	if c.HeldHandle {
+		n := *c
+		n.HeldHandle = false
+		out = append(out, &n)
+	}
+	if c.Frag != nil {
+		n := *c
+		n.Frag = nil
+		out = append(out, &n)
+	}
 	if c.SourceKind != "" && c.SourceKind != "rs" {
 		n := *c
 		n.SourceKind = "rs"
@@ -440,6 +495,81 @@ func embeddedTrailerFile(r *core.Rng) *fileWL {
 	}
 	rec := outer.Ops[target].Val(sh)
 	rec2, done := setFirstString(rec, string(iref.Sink.Data), r.Intn(4))
+	if !done {
+		return nil
+	}
+	outer.Ops[target] = core.AddOp(rec2)
+	ref, ok := refWrite(outer)
+	if !ok {
+		return nil
+	}
+	f := &fileWL{W: outer, Ref: ref, Data: ref.Sink.Data, Want: core.Flatten(ref.Batches), Regions: sinkRegions(ref)}
+	f.Digest = core.HashBytes(append([]byte(outer.HistoryString()), f.Data...))
+	return f
+}
+
+// embeddedForeignFile is the third embedded-trailer construction: one string
+// value of the file is a complete Parquet file written from ANOTHER struct (a
+// table that stores exports of other tables as attachments), with one to three
+// row groups. The prefix that ends right after that value ends in a trailer
+// that names columns the reading struct does not have (at least one leaf path
+// of the attachment's struct is not a leaf path of the reading struct, checked
+// here), so it is not a file of the reading struct whatever else it is; the
+// outer file really was cut, and nothing the attachment's footer describes is
+// at the place a reader would look for it.
+func embeddedForeignFile(r *core.Rng) *fileWL {
+	shape := allShapes[r.Intn(len(allShapes))]
+	sh := core.GetShape(shape)
+	var ishape string
+	for try := 0; ; try++ {
+		if try > 20 {
+			return nil
+		}
+		ishape = allShapes[r.Intn(len(allShapes))]
+		if ishape == shape || ishape == "wide" {
+			continue
+		}
+		have := map[string]bool{}
+		for _, l := range leavesOf(sh.Type) {
+			have[strings.Join(l.Elems, "\x00")] = true
+		}
+		foreign := false
+		for _, l := range leavesOf(core.GetShape(ishape).Type) {
+			if !have[strings.Join(l.Elems, "\x00")] {
+				foreign = true
+			}
+		}
+		if foreign {
+			break
+		}
+	}
+	ish := core.GetShape(ishape)
+	page := r.Range(1, 6)
+	codec := core.Codecs[r.Pick(3, 2, 1)]
+	inner := &core.WriterSpec{Shape: ishape, Page: r.Range(1, 6), Codec: core.Codecs[r.Pick(3, 2, 1)]}
+	for b, nb := 0, r.Range(1, 3); b < nb; b++ {
+		for i, n := 0, r.Range(1, 4); i < n; i++ {
+			inner.Ops = append(inner.Ops, core.AddOp(core.GenRec(r, ish.Type, core.Benign)))
+		}
+		inner.Ops = append(inner.Ops, core.WriteOp())
+	}
+	inner.Ops = append(inner.Ops, core.CloseOp())
+	iref, ok := refWrite(inner)
+	if !ok {
+		return nil
+	}
+	outer := &core.WriterSpec{Shape: shape, Page: page, Codec: codec}
+	var adds []int
+	for b, nb := 0, r.Range(1, 3); b < nb; b++ {
+		for i, k := 0, r.Range(1, 3); i < k; i++ {
+			adds = append(adds, len(outer.Ops))
+			outer.Ops = append(outer.Ops, core.AddOp(core.GenRec(r, sh.Type, core.Benign)))
+		}
+		outer.Ops = append(outer.Ops, core.WriteOp())
+	}
+	outer.Ops = append(outer.Ops, core.CloseOp())
+	target := adds[r.Intn(len(adds))]
+	rec2, done := setFirstString(outer.Ops[target].Val(sh), string(iref.Sink.Data), r.Intn(4))
 	if !done {
 		return nil
 	}
